@@ -211,8 +211,10 @@ class ControlVariates:
             if np.amin(np.absolute(sigma_x)) < 1e-12:
                 b_star = np.zeros_like(sigma_xy)
             else:
-                inv_sigma_x = np.linalg.inv(sigma_x)
-                b_star = inv_sigma_x @ sigma_xy
+                # least-squares solution of sigma_x b = sigma_xy: the covariance matrix of the controls is singular
+                # when the controls are collinear on the sample (or when there are fewer paths than controls) and
+                # its numerical inverse is then meaningless
+                b_star = np.linalg.lstsq(sigma_x, sigma_xy, rcond=None)[0]
         except np.linalg.LinAlgError:
             logging.log(
                 level=logging.WARNING,
